@@ -276,6 +276,10 @@ def _kpm_case(rng, counters):
     aux = (not top) and rng.random() < 0.4
     if aux:
         opts["auxiliary_vectors"] = V[:, [ka + 1, ka] if rng.random() < 0.5 else [ka, ka + 1]]  # any order
+        if (N + ka) % 2:
+            # eigenvectors are defined up to a phase: complex auxiliary vectors are valid also for a real H_0
+            opts["auxiliary_vectors"] = opts["auxiliary_vectors"] * np.exp(1j * np.array([0.7, 2.1]))
+            counters["kpm_aux_complex_phases"] += 1
     h0 = sparse.csr_array(H0) if rng.random() < 0.5 else H0
     with warnings.catch_warnings(record=True) as wlist:
         warnings.simplefilter("always")
